@@ -89,6 +89,19 @@ let handle (line : string) : string =
       | "state_signing_await_partial_signs" -> M.OSigning
       | _ -> M.OReinit in
     "c04shape " ^ Fsm_io.string_of_coq (M.result_line (M.result_of o (nat n) (nat t) (nat "0") (nat nm) (e = "1")))
+  | "c11deal" :: t :: i :: fault :: rest ->
+    (* c11deal t i fault nb bc.. nd dealt.. share *)
+    let a = Array.of_list rest in
+    let nb = int_of_string a.(0) in
+    let bc = List.init nb (fun k -> z_of_dec a.(1 + k)) in
+    let nd = int_of_string a.(1 + nb) in
+    let dealt = List.init nd (fun k -> z_of_dec a.(2 + nb + k)) in
+    let share = z_of_dec a.(2 + nb + nd) in
+    let f = match fault with "undecryptable" -> M.FUndecryptable | "malformed" -> M.FMalformed | _ -> M.FNone in
+    let d = { M.dl_fault = f; dl_commits = dealt; dl_share = share } in
+    "c11deal " ^ (if M.accepts (M.N.to_nat (n_of_int (int_of_string t))) bc d (z_of_dec i) then "accept" else "refuse")
+  | "c11round" :: dev :: compl :: _ ->
+    "c11round " ^ Fsm_io.string_of_coq (M.round_outcome (dev = "deviating") (compl = "true"))
   | "c04lock" :: _ -> "c04lock waits=" ^ (if M.tick_waits_during_command then "true" else "false")
   | "c04rounds" :: t1 :: m1 :: t2 :: m2 :: _ ->
     let nat s = M.N.to_nat (n_of_int (int_of_string s)) in
